@@ -61,7 +61,7 @@ def gen_launch(ctx, P, maxn):
     cases = []
     def add(line): cases.append("p%dc%d %s" % (P, len(cases), line))
     full = not ctx.quick()
-    for N in range(0, maxn + 1):
+    for N in range(maxn, -1, -1):          # zero rows last: a crashing constructor there does not hide the rest
         if full and maxn <= 40:
             Ms = range(0, maxn + 1)
         else:
